@@ -167,6 +167,10 @@ def gen_structure(rng, tier, focus):
         if c > 0 and rng.random() < (0.65 if focus == 'C03' else 0.35):
             src_idx = rng.randrange(c)
             amp = rng.choice([0.0, 0.0, 0.0, 0.05, 0.3])
+            if focus == 'C11':
+                # keep copies physically plausible: with large noise, distance-based bonding of renamed hydrogens
+                # legitimately differs from name-based bonding (DESIGN.md section 7)
+                amp = rng.choice([0.0, 0.0, 0.02, 0.05])
             same_id = rng.random() < 0.15
             cid = ids[src_idx] if same_id else ids[c]
             ops.append(['copy', src_idx, cid, dx - 45.0 * src_idx, rng.randrange(1 << 20), amp])
@@ -616,7 +620,7 @@ class C07PCheck(PCheck):
     def budgets(self, tier):
         if tier == 'thorough':
             return {'runs': 5000, 'determinism': 40, 'wall': 3000, 'workers': 32}
-        return {'runs': 180, 'determinism': 8, 'wall': 900, 'workers': 32}
+        return {'runs': 300, 'determinism': 10, 'wall': 900, 'workers': 32}
 
 
 class C02PCheck(PCheck):
@@ -632,7 +636,7 @@ class C02PCheck(PCheck):
     def budgets(self, tier):
         if tier == 'thorough':
             return {'runs': 3000, 'determinism': 30, 'wall': 2400, 'workers': 32}
-        return {'runs': 120, 'determinism': 6, 'wall': 600, 'workers': 32}
+        return {'runs': 200, 'determinism': 8, 'wall': 600, 'workers': 32}
 
 
 class Composite(core.Check):
@@ -646,3 +650,251 @@ CHECK_C07P = core.register(C07PCheck())
 CHECK_C02P = core.register(C02PCheck())
 CHECK_C07 = core.register(Composite('C07', ['C07F', 'C07P'], 'fault_enumeration'))
 CHECK_C02 = core.register(Composite('C02', ['C02M', 'C02P'], 'exploration'))
+
+
+# ---------------------------------------------------------------------------
+# C11: groups of presentations of one structure
+
+def _num(tok):
+    try:
+        return float(tok)
+    except (TypeError, ValueError):
+        return None
+
+
+def _param_close(a, b):
+    if a == b:
+        return True
+    fa, fb = _num(a), _num(b)
+    if fa is None or fb is None:
+        return False
+    tol = 1e-6 + 1e-6 * max(abs(fa), abs(fb))
+    # formatted fields: one unit in the last printed digit
+    for tok in (a, b):
+        if isinstance(tok, str) and '.' in tok and 'e' not in tok.lower():
+            decimals = len(tok.split('.')[1])
+            if decimals <= 6:
+                tol = max(tol, 1.01 * 10 ** (-decimals))
+    return abs(fa - fb) <= tol
+
+
+def _inter_key(rec):
+    section, guard, atoms, params = rec
+    return (section, json.dumps(guard), json.dumps(atoms), [(_num(p) if _num(p) is not None else 0.0) for p in params],
+            [str(p) for p in params])
+
+
+def compare_topologies(base, var, variant, argv):
+    """-> list of (class, detail) differences between the canonical topologies of two runs."""
+    diffs = []
+    mb, mv = base['molecules'], var['molecules']
+    if len(mb) != len(mv):
+        return [('molecule-count', {'baseline': len(mb), 'variant': len(mv)})]
+    for j, (a, b) in enumerate(zip(mb, mv)):
+        if a['name'] != b['name']:
+            diffs.append(('moltype-name', {'molecule': j, 'baseline': a['name'], 'variant': b['name']}))
+        if len(a['atoms']) != len(b['atoms']):
+            diffs.append(('atoms', {'molecule': j, 'baseline': len(a['atoms']), 'variant': len(b['atoms'])}))
+            continue
+        for k, (x, y) in enumerate(zip(a['atoms'], b['atoms'])):
+            same = x[:5] == y[:5] and len(x) == len(y) and all(_param_close(p, q) for p, q in zip(x[5:], y[5:]))
+            if not same:
+                diffs.append(('atoms', {'molecule': j, 'atom': k + 1, 'baseline': x, 'variant': y}))
+                break
+        ia = sorted(a['inter'], key=_inter_key)
+        ib = sorted(b['inter'], key=_inter_key)
+        bad = None
+        if len(ia) != len(ib):
+            ka = collections.Counter((r[0], json.dumps(r[1]), json.dumps(r[2])) for r in ia)
+            kb = collections.Counter((r[0], json.dumps(r[1]), json.dumps(r[2])) for r in ib)
+            bad = {'molecule': j, 'only_baseline': list((ka - kb).elements())[:4], 'only_variant': list((kb - ka).elements())[:4],
+                   'sections': sorted(set(k[0] for k in list((ka - kb)) + list((kb - ka))))}
+        else:
+            for x, y in zip(ia, ib):
+                if x[:3] != y[:3] or len(x[3]) != len(y[3]) or not all(_param_close(p, q) for p, q in zip(x[3], y[3])):
+                    bad = {'molecule': j, 'baseline': x, 'variant': y, 'sections': sorted(set([x[0], y[0]]))}
+                    break
+        if bad is not None:
+            diffs.append(('interactions', bad))
+    # coordinates: variant == R * baseline + t
+    dummies = set((d[0], d[1], d[2]) for d in base.get('dummies', []))
+    worst = 0.0
+    bad_coords = []
+    for j, (ca, cb) in enumerate(zip(base['coords'], var['coords'])):
+        if len(ca) != len(cb):
+            continue
+        for (na, ra, xa), (nb, rb, xb) in zip(ca, cb):
+            want = expected_position(variant, xa)
+            err = max(abs(p - q) for p, q in zip(want, xb))
+            if err > 0.0021:
+                bad_coords.append({'molecule': j, 'atom': na, 'resid': ra, 'expected': [round(v, 3) for v in want], 'actual': xb,
+                                   'dummy': (j, ra, na) in dummies})
+            worst = max(worst, err)
+    if bad_coords:
+        if all(b['dummy'] for b in bad_coords):
+            diffs.append(('coords-charge-dummy', {'n': len(bad_coords), 'first': bad_coords[0]}))
+        else:
+            diffs.append(('coords', {'n': len(bad_coords), 'first': [b for b in bad_coords if not b['dummy']][0]}))
+    return diffs
+
+
+def expected_position(variant, xyz_angstrom):
+    """Image of a baseline output position (A) under the variant's rigid motion."""
+    v = variant or {}
+    x = list(xyz_angstrom)
+    if v.get('rigid'):
+        rot = structure.ROTATIONS[v['rigid'][0] % len(structure.ROTATIONS)]
+        x = [sum(rot[i][j] * x[j] for j in range(3)) + v['rigid'][1 + i] / 1000.0 for i in range(3)]
+    if v.get('mem_rigid'):
+        m = v['mem_rigid']['matrix']
+        t = v['mem_rigid']['shift']
+        x = [sum(m[3 * i + j] * x[j] for j in range(3)) + 10.0 * t[i] for i in range(3)]
+    return x
+
+
+def random_rotation(rng):
+    import math
+    while True:
+        q = [rng.gauss(0, 1) for _ in range(4)]
+        n = math.sqrt(sum(v * v for v in q))
+        if n > 1e-3:
+            break
+    w, x, y, z = [v / n for v in q]
+    return [1 - 2 * (y * y + z * z), 2 * (x * y - z * w), 2 * (x * z + y * w),
+            2 * (x * y + z * w), 1 - 2 * (x * x + z * z), 2 * (y * z - x * w),
+            2 * (x * z - y * w), 2 * (y * z + x * w), 1 - 2 * (x * x + y * y)]
+
+
+class C11Check(PCheck):
+    id = 'C11'
+    focus = 'C11'
+    properties = ('C11',)
+    run_timeout = 100
+    rule = ('scenario = group of simulated martinize2 runs on one derived structure and option set: a baseline and 3-5 variants '
+            '(other PYTHONHASHSEED in another interpreter; atoms shuffled within residues; hydrogens renamed; one of the 24 cube '
+            'rotations plus a lattice translation applied to the file; an arbitrary rotation applied in memory after reading; '
+            'combinations), enumeration order and RNG seed held equal inside a group. Compared: outcome class, canonical topology '
+            'parsed from the written files (atoms and every interaction keyed by residue number and atom name, floats with '
+            'tolerance), coordinates == R * baseline + t. distinct = scenario digest; non-trivial = baseline finished and at least '
+            'one variant was compared')
+    probes_expected = ['variant:hash', 'variant:perm', 'variant:hren', 'variant:rigid', 'variant:mem_rigid', 'variant:combo',
+                       'group_compared', 'group_failed_consistently']
+
+    def budgets(self, tier):
+        if tier == 'thorough':
+            return {'runs': 1500, 'determinism': 16, 'wall': 3300, 'workers': 12}
+        return {'runs': 160, 'determinism': 6, 'wall': 900, 'workers': 12}
+
+    def generate(self, rng, run_index, tier):
+        seed = int(os.environ.get('VERIF_SEED', '0') or 0)
+        envs = envs_for(seed, self.nworkers(tier))
+        task = gen_task(rng, tier, 'C11')
+        task.pop('fs', None)
+        if '-o' not in task['argv']:
+            task['argv'] += ['-o', 'topol.top']
+        directed = run_index == 0
+        if directed:
+            # directed group that exercises the listed known finding (charge dummies under a rigid motion)
+            task['structure'] = {'source': 'tier-1/villin/aa.pdb', 'ops': [['chain', 3, 5, 'A', 0.0]]}
+            task['argv'] = ['-x', 'cg.pdb', '-o', 'topol.top', '-ff', 'martini22p', '-maxwarn', '100000']
+        a = run_index % len(envs)
+        b = (a + 1 + rng.randrange(len(envs) - 1)) % len(envs)
+        kinds = ['hash', 'perm', 'hren', 'rigid', 'mem_rigid', 'combo']
+        chosen = ['hash'] + rng.sample(kinds[1:], rng.randint(2, 4))
+        if directed:
+            chosen = ['hash', 'rigid', 'perm']
+        variants = []
+        for kind in chosen:
+            v = {'kind': kind, 'present': {}}
+            if kind in ('perm', 'combo'):
+                v['present']['perm'] = rng.randrange(1 << 30)
+            if kind in ('hren', 'combo'):
+                v['present']['hren'] = rng.randrange(1 << 30)
+            if kind in ('rigid', 'combo'):
+                v['present']['rigid'] = [rng.randrange(24)] + [rng.randrange(-20000, 20000) for _ in range(3)]
+            if kind == 'mem_rigid':
+                v['present']['mem_rigid'] = {'matrix': random_rotation(rng), 'shift': [rng.uniform(-3, 3) for _ in range(3)]}
+            if kind == 'combo' and rng.random() < 0.5:
+                v['other_hash'] = True
+            variants.append(v)
+        return {'env': envs[a], 'env_b': envs[b], 'task': task, 'variants': variants}
+
+    def describe(self, scenario):
+        d = super().describe(scenario)
+        d['variants'] = scenario['variants']
+        d['env_b'] = scenario['env_b']
+        return d
+
+    def simplifications(self, scenario):
+        for i in range(len(scenario['variants'])):
+            if len(scenario['variants']) > 1:
+                yield dict(scenario, variants=scenario['variants'][:i] + scenario['variants'][i + 1:])
+        for i, v in enumerate(scenario['variants']):
+            for key in list(v['present']):
+                if len(v['present']) > 1:
+                    nv = dict(v, present={k: x for k, x in v['present'].items() if k != key})
+                    yield dict(scenario, variants=scenario['variants'][:i] + [nv] + scenario['variants'][i + 1:])
+        for cand in super().simplifications(scenario):
+            yield cand
+
+    def execute(self, scenario):
+        task = scenario['task']
+        futs = [FLEET.submit(scenario['env'], task, timeout=self.run_timeout)]
+        for v in scenario['variants']:
+            vt = dict(task)
+            if v['present']:
+                vt['variant'] = v['present']
+            env = scenario['env_b'] if (v['kind'] == 'hash' or v.get('other_hash')) else scenario['env']
+            futs.append(FLEET.submit(env, vt, timeout=self.run_timeout))
+        results = [f.result() for f in futs]
+        for r in results:
+            if 'harness_error' in r or 'harness_timeout' in r or 'fatal' in r:
+                return harness_result(r)
+        base = results[0]
+        stats = core.Stats()
+        stats.execs = len(results)
+        for r in results:
+            st = r['stats']
+            stats.faults.update(st.get('faults', {}))
+            stats.counters.update(st.get('counters', {}))
+            for k, val in st.get('probes', {}).items():
+                stats.probes[k] += val
+        digests = [r['digest'] for r in results]
+        stats.states.add(core.digest(base['stages']))
+        failure = None
+        for v, r in zip(scenario['variants'], results[1:]):
+            stats.probes['variant:' + v['kind']] += 1
+            if r['outcome'] != base['outcome'] or r['finished'] != base['finished']:
+                failure = ('outcome-class', 'outcome-class', {'baseline': base['outcome'], 'variant': r['outcome'], 'kind': v['kind'],
+                                                               'traceback': (r.get('traceback') or base.get('traceback') or '')[-600:]})
+                break
+            if not base['finished']:
+                stats.probes['group_failed_consistently'] += 1
+                continue
+            if base['topology'] is None or r['topology'] is None:
+                continue
+            stats.nontrivial = True
+            diffs = compare_topologies(base['topology'], r['topology'], v['present'], task['argv'])
+            stats.probes['group_compared'] += 1
+            if diffs:
+                cls, detail = diffs[0]
+                sig = cls
+                if cls == 'interactions':
+                    sig = 'interactions:' + ','.join(detail.get('sections', []))
+                failure = (cls, sig, {'kind': v['kind'], 'present': v['present'], 'detail': detail,
+                                      'all': [d[0] for d in diffs]})
+                if cls != 'coords-charge-dummy' or len(diffs) > 1:
+                    if cls == 'coords-charge-dummy':
+                        cls2, detail2 = diffs[1]
+                        failure = (cls2, cls2, {'kind': v['kind'], 'detail': detail2})
+                    break
+        run_digest = core.digest(digests)
+        if failure is not None:
+            stats.nontrivial = True
+            return result(VIOLATION, invariant=failure[0], signature=failure[1], expected='same topology and co-moving coordinates',
+                          actual=failure[2], detail={'argv': task['argv'], 'outcomes': [r['outcome'] for r in results]},
+                          stats=stats.to_json(), run_digest=run_digest)
+        return result(PASS, stats=stats.to_json(), run_digest=run_digest)
+
+
+CHECK_C11 = core.register(C11Check())
